@@ -85,6 +85,11 @@ func (Prop) Gen(seed int64, tier string) *harness.Case {
 	w := Work{Rooted: r.Intn(4) == 0, Child: r.Intn(2) == 0, SInit: map[string]int{}, STypes: map[string]int{}}
 	nClients := 2 + r.Intn(2)
 	maxOps := 2 + r.Intn(4)
+	if tier == "thorough" && r.Intn(2) == 0 {
+		// deeper bounds in the thorough tier: up to 4 clients x 8 operations (histories stay <= 33 operations)
+		nClients = 2 + r.Intn(3)
+		maxOps = 3 + r.Intn(6)
+	}
 	valNames := []string{"a", "b"}
 	if r.Intn(2) == 0 {
 		valNames = append(valNames, "c")
